@@ -1,6 +1,7 @@
 import CasbinVerif.Driver.Proto
 import CasbinVerif.Model.Enforcer
 import CasbinVerif.Spec.Perm
+import CasbinVerif.Spec.Mirror
 /-
   Driver ops for the enforcer state machine (C01, C03, C04, C05, C10, C11, C15, C17).  See
   harness/cmd/corr/enfops.go for the Go side of the same vocabulary.
@@ -85,6 +86,8 @@ structure EnfSt where
   evalTab : List (String × Expr) := []
   custom : List (String × Expr) := []
   enf : Option Enf := none
+  /-- every management call so far satisfied `Enf.opWF` (the hypothesis of C05.mirror_hist) -/
+  histOk : Bool := true
 
 def showMRes : Enf.MRes → String
   | .ok b => showBool b
@@ -119,6 +122,19 @@ def parseCtxVals (ts : List String) : Option (EnforceCtx × List Val) :=
   | vs => do
       let vals ← vs.mapM parseVal
       pure ({}, vals)
+
+/-- decidable part of `Enf.WFState` that a (re)load establishes: listed rules plain, of the
+    definition's arity, no rule twice -/
+def stateOk (e : Enf) : Bool :=
+  e.md.g.all (fun (gt, count, kind) =>
+    2 ≤ count && count ≤ 3 && (kind != .plain || count == 2) &&
+    (match e.g.lookup gt with
+     | some s => s.policy.all (plainRule count) && s.policy.eraseDups.length == s.policy.length
+     | none => false)) &&
+  e.md.p.all (fun (pt, toks) =>
+    match e.p.lookup pt with
+    | some s => s.policy.all (plainRule toks.length) && s.policy.eraseDups.length == s.policy.length
+    | none => false)
 
 /-- the reference decision on the currently listed rules, and whether the request lies inside the
     hypotheses of C01.enforce_eq_perm -/
@@ -185,7 +201,7 @@ def enfOp (st : EnfSt) (ts : List String) : Option (EnfSt × String × String ×
         let (e2, ok) := e1.loadPolicy
         -- SetWatcher happens after construction in the harness
         let e3 := { e2 with watcher := st.watcher }
-        if ok then some ({ st with enf := some e3 }, "ok", "-", true)
+        if ok then some ({ st with enf := some e3, histOk := stateOk e3 }, "ok", "-", true)
         else some ({ st with enf := none }, "err", "-", true)
       else some ({ st with enf := some { e0 with watcher := st.watcher } }, "ok", "-", true)
   | op :: rest =>
@@ -194,17 +210,21 @@ def enfOp (st : EnfSt) (ts : List String) : Option (EnfSt × String × String ×
     | some e =>
       let ret (e' : Enf) (m s : String) (wf : Bool) : Option (EnfSt × String × String × Bool) :=
         some ({ st with enf := some e' }, m, s, wf)
+      -- a management call: remember whether it satisfied the theorem's hypothesis
+      let retM (op : MOp) (e' : Enf) (m : String) : Option (EnfSt × String × String × Bool) :=
+        some ({ st with enf := some e', histOk := st.histOk && e.opWF op }, m, "-", true)
+      let hOk := st.histOk
       match op, rest with
       | "enf", args => do
           let (ctx, vals) ← parseCtxVals args
           let (e', r) := e.enforceStep ctx none vals
           let (sp, wf) := specOf e ctx vals
-          ret e' (showEnf r) sp wf
+          ret e' (showEnf r) sp (wf && hOk)
       | "enfx", args => do
           let (ctx, vals) ← parseCtxVals args
           let (e', r) := e.enforceStep ctx none vals
           let (sp, wf) := specOf e ctx vals
-          ret e' (showEnfEx r) (if sp == "-" then "-" else sp ++ " ...") wf
+          ret e' (showEnfEx r) (if sp == "-" then "-" else sp ++ " ...") (wf && hOk)
       | "enfm", id :: args => do
           let (ctx, vals) ← parseCtxVals args
           let (e', r) := e.enforceStep ctx (some id) vals
@@ -212,48 +232,50 @@ def enfOp (st : EnfSt) (ts : List String) : Option (EnfSt × String × String ×
       | "add", sec :: pt :: fs => do
           let r ← decodeAll fs
           let (e', res) := e.addPolicy sec pt r
-          ret e' (showMRes res) "-" true
+          retM (.add sec pt r) e' (showMRes res)
       | "adds", sec :: pt :: ex :: rs => do
           let rules ← decodeRules rs
           let (e', res) := e.addPolicies sec pt rules (ex == "1")
-          ret e' (showMRes res) "-" true
+          retM (.addMany sec pt (ex == "1") rules) e' (showMRes res)
       | "rm", sec :: pt :: fs => do
           let r ← decodeAll fs
           let (e', res) := e.removePolicy sec pt r
-          ret e' (showMRes res) "-" true
+          retM (.remove sec pt r) e' (showMRes res)
       | "rms", sec :: pt :: rs => do
           let rules ← decodeRules rs
           let (e', res) := e.removePolicies sec pt rules
-          ret e' (showMRes res) "-" true
+          retM (.removeMany sec pt rules) e' (showMRes res)
       | "upd", sec :: pt :: rest => do
           let (a, b) ← splitTwo "|" rest
           let old ← decodeAll a
           let new ← decodeAll b
           let (e', res) := e.updatePolicy sec pt old new
-          ret e' (showMRes res) "-" true
+          retM (.update sec pt old new) e' (showMRes res)
       | "upds", sec :: pt :: rest => do
           let (a, b) ← splitTwo "||" rest
           let olds ← decodeRules a
           let news ← decodeRules b
           let (e', res) := e.updatePolicies sec pt olds news
-          ret e' (showMRes res) "-" true
+          retM (.updateMany sec pt olds news) e' (showMRes res)
       | "rmf", sec :: pt :: fi :: vals => do
           let fi ← fi.toNat?
           let vs ← decodeAll vals
           match e.removeFiltered sec pt fi vs with
-          | some (e', res) => ret e' (showMRes res) "-" true
-          | none => ret e "panic" "-" false
+          | some (e', res) => retM (.removeFiltered sec pt fi vs) e' (showMRes res)
+          | none => some ({ st with histOk := false }, "panic", "-", false)
       | "updf", sec :: pt :: fi :: rest => do
           let fi ← fi.toNat?
           let (a, b) ← splitTwo "||" rest
           let vs ← decodeAll a
           let news ← decodeRules b
           let (e', res) := e.updateFiltered sec pt news fi vs
-          ret e' (showMRes res) "-" true
-      | "clear", [] => ret e.clearPolicy "ok" "-" true
+          -- UpdateFilteredPolicies is outside the alphabet of the invariant theorem
+          some ({ st with enf := some e', histOk := false }, showMRes res, "-", true)
+      | "clear", [] => some ({ st with enf := some e.clearPolicy, histOk := stateOk e.clearPolicy }, "ok", "-", true)
       | "load", [] =>
           let (e', ok) := e.loadPolicy
-          ret e' (if ok then "ok" else "err") "-" true
+          -- a successful load rebuilds every link from the loaded rules
+          some ({ st with enf := some e', histOk := if ok then stateOk e' else st.histOk }, (if ok then "ok" else "err"), "-", true)
       | "save", [] =>
           let (e', ok) := e.savePolicy
           ret e' (if ok then "ok" else "err") "-" true
@@ -290,7 +312,7 @@ def enfOp (st : EnfSt) (ts : List String) : Option (EnfSt × String × String ×
               -- spec: reachability through the currently listed grouping rules
               let grouping := fun gt => ((e.g.lookup gt).map (·.policy)).getD []
               let wfG := e.md.g.all (fun (gt, count, _) => (grouping gt).all (fun r => count == r.length))
-              ret e (showBool (rm.hasLink u r ds)) (showBool (specLink e.md grouping 10 gt (u :: r :: ds))) wfG
+              ret e (showBool (rm.hasLink u r ds)) (showBool (specLink e.md grouping 10 gt (u :: r :: ds))) (wfG && hOk)
           | none => ret e "err" "-" true
       | "roles", gt :: u :: ds => do
           let u ← decodeTok u; let ds ← decodeAll ds
